@@ -388,7 +388,15 @@ class Evaluator:
         raise AnalysisError('unsupported statement %s' % type(s).__name__, node=s)
 
     # ------------------------------------------------------------------- loops
-    def _modified(self, stmts):
+    def _modified(self, stmts, fi=None):
+        names = self._modified0(stmts)
+        if fi is not None:
+            # `np.append(...)` is a library call, not a mutation of a variable called np
+            aliases = set(fi.module.imports) - set(fi.local_names())
+            names -= aliases
+        return names
+
+    def _modified0(self, stmts):
         names = set()
         for s in stmts:
             for n in ast.walk(s):
@@ -460,7 +468,7 @@ class Evaluator:
         mod = fi.module
         ln = s.lineno
         tag = 'L%d' % ln
-        modified = self._modified(s.body)
+        modified = self._modified(s.body, fi)
 
         def run_pass(head, passno):
             back, exits, after = [], [], []
@@ -556,7 +564,7 @@ class Evaluator:
             if items is not None and len(items) <= self.unroll_limit:
                 res.extend(self._for_unrolled(s, s1, items, fi, depth))
                 continue
-            modified = self._modified(s.body) | {n.id for n in ast.walk(s.target) if isinstance(n, ast.Name)}
+            modified = self._modified(s.body, fi) | {n.id for n in ast.walk(s.target) if isinstance(n, ast.Name)}
             entry_env = dict(s1.env)
             head = self._havoc(s1, modified, s.body, tag)
             var = self._loopvar(s.target, it, tag)
@@ -641,7 +649,7 @@ class Evaluator:
     def _try(self, s, st, fi, depth):
         res = []
         body_exits = self._block(s.body, st, fi, depth)
-        modified = self._modified(s.body)
+        modified = self._modified(s.body, fi)
         normal = []
         handled_any = bool(s.handlers)
         for e in body_exits:
